@@ -49,6 +49,14 @@ CHECKS["C13"] = dict(
    design="DESIGN.md 4 C13",
    note="Trusted: Coq kernel + vm_compute; the list-based reference is the verifier's reading of the documented behaviour; known finding D15 (idle-epoch epoch counter) is matched specifically.",
    technique="Coq proof over hand-written Gallina model + lockstep correspondence (vm_compute) + list-reference oracle")
+CHECKS["C08"] = dict(
+   text="Gallina node/Loader model: state_dict() is observationally pure (theorems in Properties_C08.v); values in the model are immutable by construction, so the "
+        "no-write-through half is decided on the implementation: every state dict is pickled at birth and deep-compared after further iteration, after loading it (repeatedly, "
+        "the same object) and iterating; the same dict loaded twice must give the same continuation; a run with extra state_dict() calls after every op must yield the same stream. "
+        "Lockstep correspondence of the base history with the model.",
+   design="DESIGN.md 4 C08",
+   note="Trusted: Coq kernel + vm_compute; harness iterables copy on load (user-code aliasing out of scope); aliasing itself is not representable in the functional model and is checked by the oracle only.",
+   technique="Coq proof (purity) over hand-written Gallina model + lockstep correspondence + pickled deep-compare oracle")
 props = [json.loads(l) for l in open(os.path.join(V, "properties.jsonl"))]
 checks, na = [], []
 for p in props:
